@@ -348,6 +348,7 @@ func WriteEvidence(l *Loaded, rep *Report, out *Outcome, opt Options) error {
 			"unwind_max_seen":               unwind,
 			"panic_paths":                   panicPaths,
 			"known_findings_seen":           out.KnownPrinted,
+			"paths_re_executed_after_solver_unknown": rep.SolverRetries,
 			"inconclusive":                  out.Inconclusive,
 			"exhaustive":                    false,
 			"bounds":                        interp.BoundsSeen(),
